@@ -319,6 +319,8 @@ class ParameterScenario(Scenario):
 
                 # Disable parameter function during scenario
                 if has_function:
-                    par.skip_function[pop_label] = (scen_start, np.inf)
+                    # If the parset already carries an overwrite from an earlier scenario, the function stays suspended from the earliest start
+                    previous = par.skip_function.get(pop_label)
+                    par.skip_function[pop_label] = (min(scen_start, previous[0]) if previous else scen_start, np.inf)
 
         return new_parset
